@@ -3,6 +3,7 @@ import SPProofs.Card.Adders
 import SPProofs.Card.Fresh
 
 namespace SPModel
+open Builder Card
 
 /-! ### `clog2` -/
 
